@@ -341,3 +341,8 @@ ldexp = math.ldexp
 
 def _PyDict_NewPresized(n):
     return {}
+
+
+def tag(p, name):
+    if isinstance(p, Ptr) and p.b is not None and not p.b.tag.startswith(name + ':'):
+        p.b.tag = name + ':' + p.b.tag
